@@ -17,6 +17,8 @@ from __future__ import annotations
 
 import ast
 
+from .index import normalise_template_calls
+
 
 class _NoMatch(Exception):
     pass
@@ -128,7 +130,7 @@ def match_expr(template, code, env=None):
     """match one expression template (text, with _v_ / _e_ / _k_ metavariables) against an expression (ast or text);
     returns the binding {meta: text} extended from env, or None.  + * & | match in any operand order, comparisons
     also mirrored."""
-    t = ast.parse(template, mode="eval").body
+    t = normalise_template_calls(ast.parse(template, mode="eval")).body
     # (canonical terms carry dotted callee names as single Name nodes: re-parse to the plain spelling)
     c = ast.parse(code if isinstance(code, str) else ast.unparse(code), mode="eval").body
     e2 = {}
@@ -161,7 +163,7 @@ def _statements(fnode):
 
 def find(template, fnode, ordered=True):
     """binding {meta: text} under which every template statement matches some statement of fnode, or None"""
-    tstmts = ast.parse(template).body
+    tstmts = normalise_template_calls(ast.parse(template)).body
     cstmts = _statements(fnode)
 
     def search(i, start, env):
@@ -188,7 +190,7 @@ def find(template, fnode, ordered=True):
 
 def find_all(template, fnode):
     """every binding for a single-statement template"""
-    tstmts = ast.parse(template).body
+    tstmts = normalise_template_calls(ast.parse(template)).body
     assert len(tstmts) == 1
     out = []
     for c in _statements(fnode):
